@@ -26,7 +26,7 @@ import (
 func TestC12Splice(t *testing.T) {
 	rec := vk.New("C12", "splice")
 	defer rec.Finish(t)
-	rec.Rule("case = (licence version, pair of issued keys, splice): the 24 decoded bytes of key A with bytes [cut:], [:cut], each 8-byte block, each pair of blocks and each plaintext field position taken from key B; pairs with a forced equal salt (built raw) and pairs issued by keygen.CreateKey (random salts, re-issued while the salts coincide); " +
+	rec.Rule("case = (licence version, pair of issued keys, splice): the 24 decoded bytes of key A with bytes [cut:], [:cut], each 8-byte block, each pair of blocks and each plaintext field position taken from key B, and the two 32-character strings cut and joined at every character; pairs with a forced equal salt (built raw) and pairs issued by keygen.CreateKey (random salts, re-issued while the salts coincide); " +
 		"the spliced string's grants over the probe set on the real Service.Authorize must be a subset of grants(A) + grants(B); non-trivial = spliced strings that differ from both originals and are accepted for at least one probe; distinct = (licence, pair, spliced string)")
 	probes := c12Probes()
 	type spec struct {
@@ -102,6 +102,9 @@ func TestC12Splice(t *testing.T) {
 				var muts []string
 				for cut := 1; cut < 24; cut++ {
 					muts = append(muts, enc(append(append([]byte(nil), ra[:cut]...), rb[cut:]...)), enc(append(append([]byte(nil), rb[:cut]...), ra[cut:]...)))
+				}
+				for cut := 1; cut < 32; cut++ { // the same on the 32 characters of the strings
+					muts = append(muts, ka[:cut]+kb[cut:], kb[:cut]+ka[cut:])
 				}
 				for mask := 1; mask < 7; mask++ { // which 8-byte blocks come from B
 					c := append([]byte(nil), ra...)
